@@ -1,3 +1,12 @@
-"""More sections for Tables.lean. Each function gets the line writer `w`."""
-import extract_tables as T
+"""More sections for Tables.lean live in harness/tables/*.py (one file per area, so
+that parallel work never edits the same file). Each section is a function decorated
+with `@extract_tables.extra` that receives the line writer `w`."""
+import importlib
+import os
+
 from extract_tables import chars, extra, lean_bool, nats, strs  # noqa: F401
+
+_here = os.path.join(os.path.dirname(os.path.abspath(__file__)), "tables")
+for _f in sorted(os.listdir(_here)):
+    if _f.endswith(".py") and not _f.startswith("_"):
+        importlib.import_module("tables." + _f[:-3])
